@@ -761,7 +761,7 @@ def unit_segments(st, ct, sd):
     return segs
 
 
-def gen_mix_program(rng, path, nprocs, fmt=None, hints='-', focus=None):
+def gen_mix_program(rng, path, nprocs, fmt=None, hints='-', focus=None, cancel_rec=True):
     """focus='recvarn': record variables only, mostly varn calls that append records with the lattice along the record
     dimension (one segment per record, listed in any order) - the record count must be 1 + the highest record of ANY segment"""
     fmt = fmt or rng.choice([1, 2, 5])
@@ -910,7 +910,31 @@ def gen_mix_program(rng, path, nprocs, fmt=None, hints='-', focus=None):
                 p.per_rank(texts)
             p.tags.add('mix-nbput-%dreq' % min(maxq, 6))
             p.all('inq_nreqs')
-            if rng.chance(1, 2):
+            if (cancel_rec or not v.isrec) and maxq >= 3 and rng.chance(2, 3):
+                # cancel the OLDEST request of every rank that has at least three (the later ones must keep their places in the
+                # queues), complete a strict subset of the rest by id, then everything that is left
+                ctexts, wtexts = {}, {}
+                for r in range(nprocs):
+                    idx = [i for i in range(len(regs)) if owner[i] == r]
+                    if len(idx) >= 3:
+                        ctexts[r] = 'cancel 1 %s' % names[r][0]
+                        for c in region_cells(*regs[idx[0]]):
+                            cellvals.pop(c, None)
+                        regs[idx[0]] = None
+                        rest = names[r][1:]
+                        sub = rest[1::2] or rest[:1]
+                        wtexts[r] = 'wait %s %d %s' % ('c' if coll else 'i', len(sub), ' '.join(sub))
+                    elif coll:
+                        wtexts[r] = 'wait c 0 '
+                keep = [i for i in range(len(regs)) if regs[i] is not None]
+                regs, owner = [regs[i] for i in keep], [owner[i] for i in keep]
+                p.per_rank(ctexts)
+                p.all('inq_nreqs')
+                p.per_rank(wtexts)
+                p.all('inq_nreqs')
+                p.all('waitall %s ALL' % ('c' if coll else 'i'))
+                p.tags.add('mix-cancel-oldest-then-subset-wait')
+            elif rng.chance(1, 2):
                 p.per_rank({r: 'wait %s %d %s' % ('c' if coll else 'i', len(names[r]), ' '.join(names[r])) for r in range(nprocs) if coll or names[r]})
             else:
                 p.all('waitall %s %s' % ('c' if coll else 'i', rng.choice(['ALL', 'PUT'])))
